@@ -33,6 +33,8 @@ def _variants(prop, renamed_mutants=False):
         out.append(("twin", t))
     # every driver must give the clean verdict on the alpha-renamed package, and still see every mutant there
     out.append(("twin", dict(name="alpha-renamed locals (whole package)", rename=True, edits=[])))
+    for kind in ("flip", "invert", "kwargs", "aug"):
+        out.append(("twin", dict(name=f"shape edit `{kind}` (whole package)", reshape=kind, edits=[])))
     if renamed_mutants:
         for m in getattr(mod, "MUTANTS", []):
             out.append(("mutant", dict(m, name=m["name"] + " [on the alpha-renamed package]", rename=True)))
@@ -95,6 +97,12 @@ def run_one(task):
         except SyntaxError as exc:
             return (prop, kind, v["name"], "bad-variant", f"does not compile: {exc}")
         overlay[rel] = src
+    if v.get("reshape"):
+        from .shape import reshaped, reshaped_package
+        full = dict(reshaped_package(root, v["reshape"]))
+        for rel, src in overlay.items():
+            full[rel] = reshaped(src, v["reshape"])
+        overlay = full
     if v.get("rename"):
         from .rename import renamed, renamed_package
         full = dict(renamed_package(root))
